@@ -339,6 +339,31 @@ def run(F, R, tier):
                     r3.require(validates, (ufn, "role-validates", role), "the %s of an unpacked document is not required to be an IOTA DID" % role)
                 else:
                     r3.require(not validates, (ufn, "role-foreign", role), "%s DIDs of foreign methods are required to be IOTA DIDs: documents with foreign DIDs fail to unpack" % role)
+    # … and nothing else: the document that leaves pack / unpack is the one the role rewriting returned, handed to no other
+    # call on the way (a second pass over alsoKnownAs, properties, … would rewrite a field the contract does not list)
+    for fn_, pat_ in ((pfn, r"CoreDocument::map_unchecked$"), (ufn, r"CoreDocument::try_map$")):
+        if F.hir(fn_) is None:
+            continue
+        ev_ = sym.Evaluator(F, opaque=pat_ + r"|IotaDID::check_validity$")
+        try:
+            ps = [q for q in ev_.explore(fn_) if q.complete and SR.is_success(q.ret) is not False]
+        except (sym.Abort, sym.TooManyPaths):
+            continue     # reported above
+        n_ = 0
+        for q in ps:
+            mu_ = q.calls(pat_)
+            if len(mu_) != 1:
+                r3.fail((fn_, "only-roles"), "expected exactly one role-rewriting call on an accepting path, found %d" % len(mu_))
+                continue
+            res_ = mu_[0].result.t if isinstance(mu_[0].result, sym.Sym) else sym.term(mu_[0].result)
+            later = [e for e in q.events if e.kind == "call" and e is not mu_[0] and any(SR.derives(a_, res_) for a_ in e.args)
+                     and not SR.CONVERSIONS.search(re.sub(r"<[^<>]*>", "", e.fn or e.name or ""))]
+            r3.require(not later, (fn_, "only-roles"), "the rewritten document is handed to %s before it is returned: fields other than the listed self-references may change" % ", ".join(L.short(e.fn or e.name or "?") for e in later[:3]))
+            out = q.ret.fields[0] if isinstance(q.ret, sym.V) and q.ret.name == "Ok" and q.ret.fields else q.ret
+            dv = out.f.get("document") if isinstance(out, sym.St) else None
+            r3.require(dv is not None and SR.pure(dv, res_), (fn_, "only-roles"), "the returned document is not the value the role rewriting returned: %s" % sym.fmt(sym.term(dv)) if dv is not None else "no `document` member in the result")
+            n_ += 1
+        r3.site("%s: result.document ← the role rewriting's result, untouched, on %d accepting path(s)" % (L.short(fn_), n_))
     fn = CD + "::try_map"
     h = F.hir(fn)
     if r3.anchor(h, fn):
@@ -349,4 +374,4 @@ def run(F, R, tier):
         for c in H.calls(h, CDD + "::try_map"):
             names = [H.local_name(a) for a in H.call_args(c)[1:]]
             r3.require(names == ["id_map", "controller_map", "method_map", "services_map"] or names[:4] == ["id_update", "controller_update", "methods_update", "service_update"], (fn, "arg-order"), "CoreDocument::try_map forwards its closures in a different order: %s" % names)
-    r3.floor(9)
+    r3.floor(11)
